@@ -36,9 +36,14 @@ Checks that missed a change at first were strengthened (noted below the table); 
 |---|---|---|---|---|
 """ + "\n".join(rows) + """
 
-Two rounds were run (20 + 20 changes; seeds `Cxx` and `R2-Cxx`; the second round was told the first round's
-idea for the same property and asked for a different code site and mechanism). **Every one of the 40 changes is
-reported by the check of the property it breaks (quick tier)**; most are also reported by neighbouring checks.
+Four rounds were run (20 + 20 + 16 + 20 changes; seeds `Cxx`, `R2-Cxx`, `R3-Cxx`, `R4-Cxx`; from the second round on the
+sub-agent was told, in one line each, the earlier ideas for the same property and asked for a different code site and
+mechanism; round 3 has 16 seeds because four sub-agents did not deliver a change that could be confirmed). The last column
+is the outcome of the final matrix run (every check against every seed, quick tier, after all strengthening). **Every one
+of the 76 changes is reported by the check of the property it breaks**; most are also reported by neighbouring checks.
+First-time results, before strengthening: round 1 — 14 of 20 caught by their own check; round 2 — 8 of 20; round 3 —
+4 of 16 by their own check, 3 by no check at all (R3-C09, R3-C11, R3-C16) and one (R3-C14) made the harness itself fail;
+round 4 — 9 of 20 by their own check, 5 by no check at all (R4-C08, R4-C10, R4-C11, R4-C12, R4-C20).
 
 Strengthening triggered by first-time misses (no check was loosened, none of these families fires on the
 unchanged tree):
@@ -57,6 +62,23 @@ unchanged tree):
   command family (split commands, scripts); C18 admission under interleavings (request already in the socket at
   accept time); C20 replica re-parented by a topology update; memory faults inside proxy code (a write into
   read-only memory) are turned into recoverable panics so that they are reported as `crash`, not as a dead worker.
+* round 3 — C01 one locally answered request per rejection path of every decoding branch; C03 handshake segmentations;
+  C04 slots dropped / moved by a topology update; C02 + C08 state left behind by a connection that died inside a message
+  (aborted neighbour, backend loss mid-reply) and `sync.Pool` made a deterministic LIFO list in *every* rewritten file
+  (the ring-buffer pool is what carried the stale bytes); C07 neighbour left with a split request unanswered; **C09 flood**
+  (a never-pausing sender: `ClientSpec.Flood`, bounded intake per loop round — the earlier C09 families could not
+  express starvation because in a finite closed world every execution of the starving loop is also an execution of the
+  fair one); C10 cold connections with a handshake; C11 + C01 replies of two clients in one backend read while one of them
+  leaves; C13 slot-number edge cases; **C14 dead-node** scenario with a cross-execution oracle over the probe-target
+  choices (`Fault.AfterTicks`, `IntnGate`); C16 recycled-after-timeout; C17 rejected-behind-pending; C20 cluster-like
+  nodes (READONLY required, "served" = answered with data) with password; package-level variables reset per execution.
+* round 4 — C04 keys with a stray `}` before the tag; C06 keys / values ending in CR / LF; **C08 long stream** (the
+  1 KiB inbound ring only wraps when the leftover never drains: 70 requests, no read on a request boundary); C09 complete
+  reply + partial successor in one backend read; C10 node connection lost before the queued requests are written (and the
+  peer-address fidelity fix, §5.2); C11 single-fragment multi-key commands; C12 offender with requests in flight; C13
+  redirect line not first in its read; C14 history-dependent INFO answers; C16 connection lost after the timeout
+  (`Fault.Gate`); C17 near-miss names; **C20 ban-recovery with the real health monitor as a cooperative thread** (§3.1a) —
+  before, `go p.monitor()` was simply dropped and no change to the monitor could be seen.
 
 """ + own + "\n" + e3
 open(root+'/DESIGN.md','w').write(head+body+sec8+appA+app)
